@@ -1,4 +1,302 @@
-#include "sim.hpp"
+// nifsim — constructed models (DESIGN 4.3).
+#include "builders.hpp"
+#include <cmath>
+
 namespace sim {
-bool builderInitial(const json&, NifFile&, Ctx&) { return false; }
+
+Mesh makeMesh(uint32_t nv, uint32_t nt, uint64_t salt, bool halfExact) {
+	Mesh m;
+	Rng r(salt * 0x9E37 + nv * 31 + 7);
+	m.v.resize(nv);
+	m.uv.resize(nv);
+	m.n.resize(nv);
+	m.c.resize(nv);
+	for (uint32_t i = 0; i < nv; i++) {
+		if (halfExact) {
+			m.v[i] = Vector3((int(r.below(257)) - 128) / 8.0f, (int(r.below(257)) - 128) / 8.0f, (int(r.below(257)) - 128) / 8.0f);
+			m.uv[i] = Vector2(r.below(257) / 256.0f, r.below(257) / 256.0f);
+		}
+		else {
+			m.v[i] = Vector3(r.range(-100.f, 100.f), r.range(-100.f, 100.f), r.range(-100.f, 100.f));
+			m.uv[i] = Vector2(r.range(-2.f, 3.f), r.range(-2.f, 3.f));
+		}
+		// distinct positions keep "same vertex" heuristics of the library out of the picture
+		m.v[i].x += halfExact ? 0.0f : float(i) * 1e-3f;
+		Vector3 n(r.range(-1.f, 1.f), r.range(-1.f, 1.f), r.range(-1.f, 1.f));
+		float len = std::sqrt(n.x * n.x + n.y * n.y + n.z * n.z);
+		if (len < 1e-3f) n = Vector3(0, 0, 1);
+		else { n.x /= len; n.y /= len; n.z /= len; }
+		m.n[i] = n;
+		m.c[i] = Color4(r.below(256) / 255.0f, r.below(256) / 255.0f, r.below(256) / 255.0f, r.below(256) / 255.0f);
+	}
+	// families of fans: family k holds (a, a+k+1, a+k+2); all triangles are pairwise distinct up to rotation
+	if (nv >= 3) {
+		for (uint32_t k = 0; k + 3 <= nv && m.t.size() < nt; k++)
+			for (uint32_t a = 0; a + k + 2 < nv && m.t.size() < nt; a++) m.t.push_back(Triangle(uint16_t(a), uint16_t(a + k + 1), uint16_t(a + k + 2)));
+		// shuffle deterministically so that triangle order is not monotone in the vertex index
+		for (size_t i = m.t.size(); i > 1; i--) std::swap(m.t[i - 1], m.t[r.below(uint32_t(i))]);
+	}
+	return m;
 }
+
+static MatTransform randomXform(Rng& r) {
+	MatTransform x;
+	x.translation = Vector3(r.range(-20.f, 20.f), r.range(-20.f, 20.f), r.range(-20.f, 20.f));
+	if (r.chance(0.5)) x.rotation = RotVecToMat(Vector3(r.range(-1.5f, 1.5f), r.range(-1.5f, 1.5f), r.range(-1.5f, 1.5f)));
+	if (r.chance(0.2)) x.scale = r.range(0.5f, 2.0f);
+	return x;
+}
+
+NiShape* buildShape(NifFile& nif, const json& s, Ctx& ctx) {
+	auto& hdr = nif.GetHeader();
+	NiVersion ver = hdr.GetVersion();
+	uint64_t salt = ju64(s, "salt", 1);
+	Rng r(salt * 1315423911ull + 17);
+	uint32_t nv = uint32_t(jint(s, "nv", 12));
+	uint32_t nt = uint32_t(jint(s, "nt", 16));
+	bool halves = ver.IsFO4() || ver.IsFO76();
+	Mesh m = makeMesh(nv, nt, salt, jbool(s, "halfexact", halves));
+	std::string name = jstr(s, "name", "shape");
+	bool wantUV = jbool(s, "uv", true), wantN = jbool(s, "normals", true);
+	std::string kind = jstr(s, "kind", "auto");
+
+	NiShape* shape = nullptr;
+	if (kind == "strips" && !(ver.IsSSE() || ver.IsFO4() || ver.IsFO76() || ver.IsSF())) {
+		// NiTriStrips + NiTriStripsData assembled from public members (no API creates strips)
+		auto data = std::make_unique<NiTriStripsData>();
+		uint32_t nstrips = 1 + r.below(3);
+		uint32_t pos = 0;
+		for (uint32_t k = 0; k < nstrips && pos + 3 <= nv; k++) {
+			uint32_t remain = nv - pos;
+			uint32_t len = k + 1 == nstrips ? remain : std::max(3u, remain / (nstrips - k));
+			std::vector<uint16_t> pts;
+			for (uint32_t i = 0; i < len; i++) pts.push_back(uint16_t(pos + i));
+			data->stripsInfo.points.push_back(pts);
+			uint16_t plen = uint16_t(pts.size());
+			data->stripsInfo.stripLengths.push_back(plen);
+			pos += len;
+		}
+		{
+			std::vector<Triangle> st = data->StripsToTris(); // sets the triangle counter through the public Create
+			data->Create(ver, &m.v, &st, wantUV ? &m.uv : nullptr, wantN ? &m.n : nullptr);
+		}
+		auto strips = std::make_unique<NiTriStrips>();
+		strips->name.get() = name;
+		strips->SetGeomData(data.get());
+		strips->DataRef()->index = hdr.AddBlock(std::move(data));
+		auto texset = std::make_unique<BSShaderTextureSet>(ver);
+		if (ver.IsSK()) {
+			auto sh = std::make_unique<BSLightingShaderProperty>(ver);
+			sh->TextureSetRef()->index = hdr.AddBlock(std::move(texset));
+			strips->ShaderPropertyRef()->index = hdr.AddBlock(std::move(sh));
+		}
+		else {
+			auto sh = std::make_unique<BSShaderPPLightingProperty>();
+			sh->TextureSetRef()->index = hdr.AddBlock(std::move(texset));
+			strips->propertyRefs.AddBlockRef(hdr.AddBlock(std::move(sh)));
+		}
+		shape = strips.get();
+		uint32_t id = hdr.AddBlock(std::move(strips));
+		nif.GetRootNode()->childRefs.AddBlockRef(id);
+		ctx.probe("built_strips");
+	}
+	else if (kind == "meshlod" && (ver.IsSSE() || ver.IsFO4())) {
+		auto lod = std::make_unique<BSMeshLODTriShape>();
+		lod->Create(ver, &m.v, &m.t, wantUV ? &m.uv : nullptr, wantN ? &m.n : nullptr);
+		lod->SetSkinned(false);
+		uint32_t ntri = lod->GetNumTriangles();
+		lod->lodSize0 = ntri / 2;
+		lod->lodSize1 = ntri / 4;
+		lod->lodSize2 = ntri - lod->lodSize0 - lod->lodSize1;
+		auto texset = std::make_unique<BSShaderTextureSet>(ver);
+		auto sh = std::make_unique<BSLightingShaderProperty>(ver);
+		sh->TextureSetRef()->index = hdr.AddBlock(std::move(texset));
+		lod->ShaderPropertyRef()->index = hdr.AddBlock(std::move(sh));
+		lod->name.get() = name;
+		shape = lod.get();
+		uint32_t id = hdr.AddBlock(std::move(lod));
+		nif.GetRootNode()->childRefs.AddBlockRef(id);
+		ctx.probe("built_meshlod");
+	}
+	else if (kind == "dynamic" && ver.IsSSE()) {
+		auto dyn = std::make_unique<BSDynamicTriShape>();
+		dyn->Create(ver, &m.v, &m.t, wantUV ? &m.uv : nullptr, wantN ? &m.n : nullptr);
+		dyn->SetSkinned(false);
+		auto texset = std::make_unique<BSShaderTextureSet>(ver);
+		auto sh = std::make_unique<BSLightingShaderProperty>(ver);
+		sh->TextureSetRef()->index = hdr.AddBlock(std::move(texset));
+		dyn->ShaderPropertyRef()->index = hdr.AddBlock(std::move(sh));
+		dyn->name.get() = name;
+		shape = dyn.get();
+		uint32_t id = hdr.AddBlock(std::move(dyn));
+		nif.GetRootNode()->childRefs.AddBlockRef(id);
+		ctx.probe("built_dynamic");
+	}
+	else {
+		shape = nif.CreateShapeFromData(name, &m.v, &m.t, wantUV ? &m.uv : nullptr, wantN ? &m.n : nullptr);
+	}
+	if (!shape) return nullptr;
+
+	if (jbool(s, "colors", false)) {
+		nif.SetColorsForShape(shape, m.c);
+		ctx.probe("built_colors");
+	}
+	if (jbool(s, "tangents", false) && wantUV && wantN) nif.CalcTangentsForShape(shape);
+	if (jbool(s, "eyedata", false) && dynamic_cast<BSTriShape*>(shape)) {
+		std::vector<float> eye(shape->GetNumVertices());
+		for (auto& e : eye) e = r.below(9) / 8.0f;
+		auto bs = dynamic_cast<BSTriShape*>(shape);
+		bs->SetEyeData(true);
+		NifFile::SetEyeDataForShape(shape, eye);
+		ctx.probe("built_eyedata");
+	}
+	if (jbool(s, "fullprec", false) && dynamic_cast<BSTriShape*>(shape) && (ver.IsFO4() || ver.IsFO76())) {
+		dynamic_cast<BSTriShape*>(shape)->SetFullPrecision(true);
+		ctx.probe("built_fullprec");
+	}
+	{
+		std::string tex = "textures\\verif\\t" + std::to_string(salt % 97) + ".dds";
+		nif.SetTextureSlot(shape, tex, 0);
+		if (r.chance(0.5)) {
+			std::string tn = "textures\\verif\\t" + std::to_string(salt % 89) + "_n.dds";
+			nif.SetTextureSlot(shape, tn, 1);
+		}
+	}
+	if (jbool(s, "alpha", false)) nif.AssignAlphaProperty(shape, std::make_unique<NiAlphaProperty>());
+	if (jbool(s, "xform", false)) shape->SetTransformToParent(randomXform(r));
+
+	// ---- skin ----
+	int nbones = jint(s, "bones", 0);
+	if (nbones > 0 && !ver.IsFO76() && !ver.IsSF()) {
+		nif.CreateSkinning(shape);
+		std::vector<int> ids;
+		std::vector<NiNode*> made;
+		for (int b = 0; b < nbones; b++) {
+			std::string bn = name + "_Bone" + std::to_string(b);
+			NiNode* parent = (!made.empty() && r.chance(0.4)) ? made[r.below(uint32_t(made.size()))] : nullptr;
+			auto nd = nif.AddNode(bn, randomXform(r), parent);
+			made.push_back(nd);
+		}
+		for (auto nd : made) ids.push_back(int(nif.GetBlockID(nd)));
+		nif.SetShapeBoneIDList(shape, ids);
+		int wpv = jint(s, "wpv", 3);
+		bool bs = dynamic_cast<BSTriShape*>(shape) != nullptr;
+		if (bs && wpv > 4) wpv = 4; // per-vertex storage holds four influences; keep both stores consistent
+		uint16_t nvv = shape->GetNumVertices();
+		std::vector<std::unordered_map<uint16_t, float>> perBone(nbones);
+		for (uint16_t vi = 0; vi < nvv; vi++) {
+			int k = wpv == 0 ? 0 : 1 + int(r.below(uint32_t(wpv)));
+			if (jbool(s, "some_unweighted", false) && r.chance(0.1)) k = 0;
+			k = std::min(k, nbones);
+			std::vector<int> bones;
+			while (int(bones.size()) < k) {
+				int b = int(r.below(uint32_t(nbones)));
+				if (std::find(bones.begin(), bones.end(), b) == bones.end()) bones.push_back(b);
+			}
+			std::vector<float> w;
+			float sum = 0;
+			for (int j = 0; j < k; j++) { w.push_back(float(1 + r.below(64))); sum += w.back(); }
+			// exactly representable, normalised, sorted by descending weight (what real files look like)
+			std::vector<std::pair<float, int>> bw;
+			for (int j = 0; j < k; j++) bw.push_back({w[j] / sum, bones[j]});
+			std::sort(bw.begin(), bw.end(), [](auto& a, auto& b2) { return a.first > b2.first || (a.first == b2.first && a.second < b2.second); });
+			for (auto& p : bw) perBone[p.second][vi] = p.first;
+			if (bs) {
+				std::vector<uint8_t> bi;
+				std::vector<float> ww;
+				for (auto& p : bw) { bi.push_back(uint8_t(p.second)); ww.push_back(p.first); }
+				if (!bi.empty() && nbones <= 255) nif.SetShapeVertWeights(name, vi, bi, ww);
+			}
+		}
+		for (int b = 0; b < nbones; b++) {
+			nif.SetShapeBoneWeights(name, uint32_t(b), perBone[b]);
+			nif.SetShapeTransformSkinToBone(shape, uint32_t(b), randomXform(r));
+			BoundingSphere bsph;
+			bsph.center = Vector3(r.range(-5.f, 5.f), r.range(-5.f, 5.f), r.range(-5.f, 5.f));
+			bsph.radius = r.range(0.f, 10.f);
+			nif.SetShapeBoneBounds(name, uint32_t(b), bsph);
+		}
+		int nparts = jint(s, "partitions", 1);
+		if (!(ver.IsFO4() || ver.IsFO76())) {
+			if (nparts > 1) {
+				NiVector<BSDismemberSkinInstance::PartitionInfo> pinfo;
+				for (int p = 0; p < nparts; p++) {
+					BSDismemberSkinInstance::PartitionInfo pi;
+					pi.partID = uint16_t(30 + p);
+					pinfo.push_back(pi);
+				}
+				std::vector<int> labels(shape->GetNumTriangles());
+				for (auto& l : labels) l = int(r.below(uint32_t(nparts)));
+				nif.SetShapePartitions(shape, pinfo, labels);
+			}
+			nif.UpdateSkinPartitions(shape);
+		}
+		ctx.probe("built_skinned");
+	}
+
+	// ---- FO4 segments ----
+	if (s.contains("segments") && dynamic_cast<BSSubIndexTriShape*>(shape)) {
+		const json& sg = s["segments"];
+		NifSegmentationInfo inf;
+		int id = 0;
+		std::vector<int> leaves;
+		for (auto& nsub : sg["subs"]) {
+			NifSegmentInfo si;
+			si.partID = id++;
+			int ns = nsub.get<int>();
+			for (int j = 0; j < ns; j++) {
+				NifSubSegmentInfo ss;
+				ss.partID = id++;
+				ss.userSlotID = r.chance(0.5) ? 30 + r.below(20) : 0;
+				ss.material = r.below(1000);
+				if (r.chance(0.4)) ss.extraData = {1.0f, 2.0f};
+				si.subs.push_back(ss);
+				leaves.push_back(ss.partID);
+			}
+			if (ns == 0) leaves.push_back(si.partID);
+			inf.segs.push_back(si);
+		}
+		inf.ssfFile = jstr(sg, "ssf", "");
+		std::vector<int> labels(shape->GetNumTriangles());
+		for (auto& l : labels) l = leaves.empty() ? -1 : leaves[r.below(uint32_t(leaves.size()))];
+		NifFile::SetShapeSegments(shape, inf, labels);
+		ctx.probe("built_segments");
+	}
+
+	if (jbool(s, "lockednorm", false)) {
+		auto ed = std::make_unique<NiIntegersExtraData>();
+		ed->name.get() = "LOCKEDNORM";
+		uint16_t nvv = shape->GetNumVertices();
+		for (uint16_t i = 0; i < nvv; i++)
+			if (r.chance(0.3)) { uint32_t iv = i; ed->integersData.push_back(iv); }
+		nif.AssignExtraData(shape, std::move(ed));
+		ctx.probe("built_lockednorm");
+	}
+	if (jbool(s, "msn", false) && (ver.IsSK() || ver.IsSSE())) {
+		if (auto sh = dynamic_cast<BSLightingShaderProperty*>(nif.GetShader(shape))) {
+			sh->shaderFlags1 |= SLSF1_MODEL_SPACE_NORMALS;
+			ctx.probe("built_msn");
+		}
+	}
+	if (jbool(s, "dyn_flag", false)) nif.SetShapeDynamic(name);
+	return shape;
+}
+
+bool builderInitial(const json& spec, NifFile& nif, Ctx& ctx) {
+	nif.Create(versionByName(jstr(spec, "version", "SSE")));
+	Rng r(ju64(spec, "salt", 1) + 99);
+	int nodes = jint(spec, "nodes", 0);
+	std::vector<NiNode*> made;
+	for (int i = 0; i < nodes; i++) {
+		NiNode* parent = (!made.empty() && r.chance(0.5)) ? made[r.below(uint32_t(made.size()))] : nullptr;
+		made.push_back(nif.AddNode("Node" + std::to_string(i), randomXform(r), parent));
+	}
+	if (spec.contains("shapes"))
+		for (auto& s : spec["shapes"]) {
+			NiShape* sh = buildShape(nif, s, ctx);
+			if (sh && jint(s, "under_node", -1) >= 0 && !made.empty()) nif.SetParentNode(sh, made[size_t(jint(s, "under_node")) % made.size()]);
+		}
+	return true;
+}
+
+} // namespace sim
